@@ -243,7 +243,7 @@ def part_uri(ctx, res):
     extra = []
     rng = ctx.rng
     alpha = ["a", "0", "_", ".", "#", " ", "\n", "A", "é", "٣", "z", "9", "-", "@", "x", "e", "t", "h", "F", "\t", " ", "\U0001f600", "１"]
-    for _ in range(3000 if ctx.tier == "quick" else 20000):
+    for _ in range(3000 if ctx.tier == "quick" else 60000):
         n = rng.choice([4, 5, 6, 8, 12, 20, 43])
         extra.append("".join(rng.choice(alpha) for _ in range(n)))
     extra += ["x_", "x_a", "x_ab", "x_ab\n", "x_a٣", "x_abc_9", "realm1", "ab", "abc", "a" * 255, "a" * 256, "a" * 254 + "\n",
@@ -429,7 +429,19 @@ def part_octets(ctx, res, code_names, replay=None):
                 toks.append(wval.canon(a.split(" ")[2]))
             if exp is None:
                 if len(c["chunks"]) < len(chunks_model):
-                    exp = "err ProtocolError"       # a chunk that could not even be decoded to text (JSON)
+                    # the real code stopped before a chunk the model delivers: legitimate only for JSON text that is
+                    # not valid UTF-8 (it never reaches the JSON library)
+                    nxt = chunks_model[len(c["chunks"])]
+                    undecodable = False
+                    if c["ser"].startswith("json"):
+                        try:
+                            bytes.fromhex("" if nxt == "-" else nxt).decode("utf8")
+                        except UnicodeDecodeError:
+                            undecodable = True
+                    if undecodable:
+                        exp = "err ProtocolError"
+                    else:
+                        exp = "model-delivers-more-chunks"
                 else:
                     exp = "ok " + (",".join(toks) if toks else ".")
         if exp.split(" ")[:2] != real.split(" ")[:2] or (exp.startswith("ok") and exp != real):
